@@ -272,7 +272,7 @@ PROP_HARNESS = {
     'C03': {'quick': ['cfb_dec_b2w2_n3_b2b', 'ofb_enc_b2w2_n3_b2b'],
             'thorough': ['cfb_enc_b2w2_n3_b2b', 'cfb_dec_b2w2_n3_ip', 'cfb_dec_b2w2_n3_b2b', 'ofb_enc_b2w2_n3_b2b', 'ofb_dec_b2w2_n3_ip',
                          'cfb_dec_b3w3_n5_b2b', 'cfb_enc_b3w3_n4_ip', 'cfb8_enc_b2w2_n4_b2b', 'cfb8_dec_b3w2_n4_b2b', 'ofb_enc_b3w3_n4_ip',
-                         'cfbbuf_enc_b2w1_n8', 'cfbbuf_dec_b2w1_n8'], 'timeout': 3000},
+                         'cfbbuf_enc_b2w1_n8', 'cfbbuf_dec_b2w1_n8'], 'timeout': 5000, 'jobs': 4},
     'C01': {'quick': [], 'thorough': ['cbc_dec_b3w3_n5_b2b', 'pcbc_dec_b3w3_n4_b2b', 'ige_dec_b3w2_n3_b2b', 'cfb_dec_b3w3_n5_ip']},
     'C07': {'quick': ['cbc_dec_b2w2_n3_ip'], 'thorough': ['cbc_dec_b3w3_n5_ip', 'cbc_dec_b1w3_n5_b2b', 'cfb_dec_b3w3_n5_b2b', 'pcbc_dec_b3w3_n4_b2b']},
     'C12': {'quick': ['pcbc_dec_b2w2_n3_b2b'], 'thorough': ['cbc_dec_b3w3_n5_b2b', 'cfb_dec_b3w3_n5_b2b', 'ige_dec_b3w2_n3_b2b', 'cfb8_dec_b3w2_n4_b2b']},
@@ -284,11 +284,11 @@ PROP_HARNESS = {
             'thorough': ['cts_cbc1enc_b2w2_n3', 'cts_cbc2enc_b2w2_n3', 'cts_cbc3enc_b2w2_n3', 'cts_cbc1dec_b2w2_n3', 'cts_cbc2dec_b2w2_n3', 'cts_cbc3dec_b2w2_n3',
                          'cts_ecb1enc_b2w2_n3', 'cts_ecb2enc_b2w2_n3', 'cts_ecb3enc_b2w2_n3', 'cts_ecb1dec_b2w2_n3', 'cts_ecb2dec_b2w2_n3', 'cts_ecb3dec_b2w2_n3',
                          'cts_cbc1enc_b3w2_n3', 'cts_cbc2enc_b3w2_n3', 'cts_cbc3enc_b3w2_n3', 'cts_ecb1enc_b3w2_n3', 'cts_ecb2enc_b3w2_n3', 'cts_ecb3enc_b3w2_n3',
-                         'cts_ecb1dec_b3w2_n3', 'cts_ecb2dec_b3w2_n3', 'cts_ecb3dec_b3w2_n3'], 'timeout': 3000},
+                         ], 'timeout': 7200, 'jobs': 3},
     'C08': {'quick': ['ofb_ks_b2w2_n4'],
-            'thorough': ['ofb_ks_b2w2_n4', 'ofb_ks_b3w3_n4', 'ctr_32be_b4w2_n3', 'ctr_64le_b8w3_n3', 'cfbbuf_enc_b2w1_n8', 'cfbbuf_dec_b2w1_n8'], 'timeout': 3000},
+            'thorough': ['ofb_ks_b2w2_n4', 'ofb_ks_b3w3_n4', 'ctr_32be_b4w2_n3', 'ctr_64le_b8w3_n3', 'cfbbuf_enc_b2w1_n8', 'cfbbuf_dec_b2w1_n8'], 'timeout': 5000, 'jobs': 4},
     'C10': {'quick': [], 'thorough': ['ctr_32be_b4w2_n3', 'ctr_32le_b4w2_n3', 'ctr_64be_b8w2_n3', 'ctr_128le_b16w2_n3']},
     'C11': {'quick': [], 'thorough': ['ctr_limit_b4w2_n3'], 'timeout': 3000},
-    'C13': {'quick': [], 'thorough': ['cts_cbc1enc_b2w2_n3', 'cts_ecb2enc_b2w2_n3', 'cts_ecb3dec_b2w2_n3', 'cfbbuf_enc_b2w1_n8', 'cfbbuf_dec_b2w1_n8'], 'timeout': 3000},
-    'C14': {'quick': [], 'thorough': ['cts_ecb1enc_b2w2_n3', 'cts_ecb3enc_b2w2_n3', 'cts_cbc3enc_b2w2_n3', 'cfbbuf_enc_b2w1_n8', 'ofb_ks_b2w2_n4'], 'timeout': 3000},
+    'C13': {'quick': [], 'thorough': ['cts_cbc1enc_b2w2_n3', 'cts_ecb2enc_b2w2_n3', 'cts_ecb3dec_b2w2_n3', 'cfbbuf_enc_b2w1_n8', 'cfbbuf_dec_b2w1_n8'], 'timeout': 5000, 'jobs': 3},
+    'C14': {'quick': [], 'thorough': ['cts_ecb1enc_b2w2_n3', 'cts_ecb3enc_b2w2_n3', 'cts_cbc3enc_b2w2_n3', 'cfbbuf_enc_b2w1_n8', 'ofb_ks_b2w2_n4'], 'timeout': 5000, 'jobs': 3},
 }
